@@ -44,6 +44,7 @@ VARIANTS = {
 UNITS = {
     "c01": {"kind": "exe", "src": ["units/c01_int_arith.cpp"]},
     "c03": {"kind": "exe", "src": ["units/c03_compare_mask.cpp"]},
+    "c07": {"kind": "exe", "src": ["units/c07_int_bits.cpp"]},
     "c02": {"kind": "exe", "src": ["units/c02_fp_basic.cpp"], "aux": {"ref": {"src": "common/ref.cpp", "flags": ["-ffp-contract=off", "-fno-builtin"]}}, "link": ["ref"]},
 }
 
@@ -117,6 +118,27 @@ PROPS = {
                 "(NaN, +-0, MIN, MAX, ...) with 25% of lanes forced equal; masks: independent random pairs, one-hot/all-but-one/prefix/suffix for every lane, all 2^size masks "
                 "(size <= 16), all mask pairs (size <= 4 quick, <= 8 thorough); distinct cell = (op,type,arch,mask/operand class,lane,expected value); " + ALL22,
         "assumptions": COMMON_ASSUME + ["from_mask only with bits below size (documented precondition)"],
+        "floor": {"quick": 10**7, "thorough": 10**8},
+    },
+    "C07": {
+        "technique": "runtime monitoring: bit-level model on the unsigned image of every lane; value x count exhaustive for 8/16-bit lanes; 22 architectures",
+        "level_text": "Every lane of every bitwise, shift (scalar count and per-lane counts) and rotate kernel call observed is compared with a model on the lane's unsigned "
+                      "bit image (arithmetic right shift for signed types); every (value, count) combination of 8- and 16-bit lanes is enumerated in both tiers, 32/64-bit values "
+                      "are drawn from the boundary lattice and random bit patterns for every count: exploration.",
+        "level_note": "Shift/rotate counts restricted to [0,bits) (documented precondition). Trusts 128-bit/unsigned C++ arithmetic as the model.",
+        "design_ref": "DESIGN.md section 6 C07",
+        "jobs": [
+            {"unit": "c07"},
+            {"unit": "c07", "variant": "native", "tiers": ["thorough"]},
+            {"unit": "c07", "variant": "ndebug", "tiers": ["thorough"]},
+            {"unit": "c07", "variant": "clang", "tiers": ["thorough"]},
+            {"unit": "c07", "variant": "asan", "tiers": ["thorough"], "args": ["--scale", "0.05"],
+             "env": {"ASAN_OPTIONS": "abort_on_error=0:detect_leaks=0", "UBSAN_OPTIONS": "print_stacktrace=0"}},
+        ],
+        "rule": "each evaluation = one lane of one bitwise/shift/rotate call compared with the bit-level model; values from the boundary lattice and random bit patterns; "
+                "counts: every scalar count 0..bits-1 and independent per-lane counts (0 and bits-1 over-weighted); all (value,count) pairs of 8/16-bit lanes enumerated; "
+                "distinct cell = (op,type,arch,lane,value class,count mod 16); " + ALL22,
+        "assumptions": COMMON_ASSUME + ["shift/rotate counts in [0,bits)"],
         "floor": {"quick": 10**7, "thorough": 10**8},
     },
     "C08": {
